@@ -1,5 +1,6 @@
 import RV.C16.Text
 import Mathlib.Tactic.SplitIfs
+import RV.C16.LemTsvStr
 /-
   C16, round g — XML text: an XML 1.0 parser undoes `escape` / `SPARQLXMLWriter._characters` on character data and
   `quoteattr` on attribute values, for every string of XML `Char`s.
@@ -176,5 +177,100 @@ theorem xmlReadAttr_quoteattr (s : Str) (hs : s.all xmlChar = true) (rest : Str)
       rw [← hasChar_escAll (.inl rfl)]; simpa using h1
     simp only [List.cons_append, List.append_assoc, xmlReadAttr, true_or, if_true]
     exact readAttr_str (.inl rfl) s (fun c hc => ⟨hall c hc, not_hasChar h1' c hc⟩) rest
+
+/-! ### character references written for characters the encoding lacks -/
+
+open Spec.Tsv in
+theorem refNum_digit {d : Nat} (hd : d < 10) (acc : Nat) (r : Str) :
+    refNum 10 acc (hexDigit false d :: r) = refNum 10 (acc * 10 + d) r := by
+  simp [refNum, hexVal_hexDigit' false (show d < 16 by omega), hd]
+
+theorem refNum_natDigits (n : Nat) (r : Str) : refNum 10 0 (natDigits n ++ r) = refNum 10 n r := by
+  induction n using Nat.strongRecOn generalizing r with
+  | ind n ih =>
+    rw [natDigits]
+    split
+    · next h => simpa using refNum_digit h 0 r
+    · next h =>
+      have hlt : n / 10 < n := by omega
+      rw [List.append_assoc, ih (n / 10) hlt, List.singleton_append, refNum_digit (Nat.mod_lt _ (by decide))]
+      congr 1; omega
+
+open Spec.Tsv in
+theorem digit_ne_semicolon {d : Nat} (hd : d < 10) : hexDigit false d ≠ ';' := by
+  have : ∀ d : Fin 10, hexDigit false d.val ≠ ';' := by decide
+  exact this ⟨d, hd⟩
+
+open Spec.Tsv in
+theorem natDigits_spec (n : Nat) :
+    (∀ c ∈ natDigits n, c ≠ ';') ∧ ∃ d ds, natDigits n = d :: ds ∧ d ≠ 'x' := by
+  induction n using Nat.strongRecOn with
+  | ind n ih =>
+    rw [natDigits]
+    split
+    · next h =>
+      refine ⟨by simpa using digit_ne_semicolon h, _, [], rfl, ?_⟩
+      have : ∀ d : Fin 10, hexDigit false d.val ≠ 'x' := by decide
+      exact this ⟨n, h⟩
+    · next h =>
+      obtain ⟨h1, d, ds, e, hx⟩ := ih (n / 10) (by omega)
+      refine ⟨?_, d, ds ++ [hexDigit false (n % 10)], by rw [e]; rfl, hx⟩
+      intro c hc
+      rcases List.mem_append.mp hc with hc | hc
+      · exact h1 c hc
+      · have : c = hexDigit false (n % 10) := by simpa using hc
+        rw [this]; exact digit_ne_semicolon (Nat.mod_lt _ (by decide))
+
+/-- the body of a reference is collected up to its `;` -/
+theorem readText_refBody (b acc : Str) (hb : ∀ c ∈ b, c ≠ ';') (sk : Bool) (br : Nat) (tail : Str) :
+    xmlReadText sk br (some acc) (b ++ ';' :: tail)
+      = match xmlRefBody (acc ++ b) with
+        | some x => consSome x (xmlReadText false 0 none tail)
+        | none => none := by
+  induction b generalizing acc with
+  | nil => simp [xmlReadText] <;> rfl
+  | cons c cs ih =>
+    have hc : c ≠ ';' := hb c (by simp)
+    rw [List.cons_append, xmlReadText]
+    simp only [hc, if_false]
+    rw [ih (acc ++ [c]) (fun x hx => hb x (by simp [hx]))]
+    simp
+
+theorem xmlRefBody_decimal (c : Char) (hx : xmlChar c = true) : xmlRefBody ('#' :: natDigits c.toNat) = some c := by
+  obtain ⟨-, d, ds, e, hd⟩ := natDigits_spec c.toNat
+  have hnum : refNum 10 0 (d :: ds) = some c.toNat := by
+    have := refNum_natDigits c.toNat []
+    simpa [e, refNum] using this
+  rw [e]
+  unfold xmlRefBody
+  simp +decide [hd, hnum, refChar, chrOf_toNat, hx]
+
+theorem readText_charRef (c : Char) (hx : xmlChar c = true) (br : Nat) (tail : Str) :
+    xmlReadText false br none (xmlCharRef c ++ tail) = consSome c (xmlReadText false 0 none tail) := by
+  unfold xmlCharRef
+  rw [List.cons_append, xmlReadText]
+  simp only [show ('&' : Char) ≠ '<' by decide, if_false, if_true]
+  have := readText_refBody ('#' :: natDigits c.toNat) [] (by
+    intro x hx'
+    rcases List.mem_cons.mp hx' with rfl | h
+    · decide
+    · exact (natDigits_spec c.toNat).1 x h) false 0 tail
+  simp only [List.nil_append, List.cons_append, List.append_assoc, xmlRefBody_decimal c hx] at this
+  simpa using this
+
+theorem readText_writeTextEnc (enc : Char → Bool) (s : Str) (hs : s.all xmlChar = true) (br : Nat) (rest : Str) :
+    xmlReadText false br none (xmlWriteTextEnc enc s ++ '<' :: rest) = some (s, '<' :: rest) := by
+  unfold xmlWriteTextEnc
+  induction s generalizing br with
+  | nil => simp [escAll, xmlReadText]
+  | cons c cs ih =>
+    have h' : xmlChar c = true ∧ cs.all xmlChar = true := by simpa using hs
+    simp only [escAll, List.append_assoc]
+    by_cases h : (enc c || decide (c.toNat < 128)) = true
+    · have e1 : xmlTextCharEnc enc c = xmlTextChar c := by simp only [xmlTextCharEnc, h, if_true]
+      obtain ⟨br', e⟩ := readText_char c h'.1 br (escAll (xmlTextCharEnc enc) cs ++ '<' :: rest)
+      rw [e1, e, ih h'.2]; rfl
+    · have e1 : xmlTextCharEnc enc c = xmlCharRef c := by simp [xmlTextCharEnc, h]
+      rw [e1, readText_charRef c h'.1, ih h'.2]; rfl
 
 end RV.C16
